@@ -621,8 +621,11 @@ class H5DataV2(DataSet):
 
         """
         # We currently only cater for a single weight type (i.e. either select it or fall back to 1.0)
+        # The indexer keeps the weight selection in force when it was obtained (and no reference to self)
+        weights_select = self._weights_select
+
         def transform(weights, keep):
-            return weights.astype(np.float32) if self._weights_select else \
+            return weights.astype(np.float32) if weights_select else \
                 np.ones_like(weights, dtype=np.float32)
         extract = LazyTransform('extract_weights', transform, dtype=np.float32)
         return self._vislike_indexer(self._weights, extract)
@@ -642,10 +645,13 @@ class H5DataV2(DataSet):
         indexing on it. Only then will data be loaded into memory.
 
         """
+        # The indexer keeps the flag selection in force when it was obtained (and no reference to self)
+        flags_select = self._flags_select
+
         def transform(flags, keep):
             """Use flagmask to blank out the flags we don't want."""
             # Then convert uint8 to bool -> if any flag bits set, flag is set
-            return np.bool_(np.bitwise_and(self._flags_select, flags))
+            return np.bool_(np.bitwise_and(flags_select, flags))
         extract = LazyTransform('extract_flags', transform, dtype=bool)
         return self._vislike_indexer(self._flags, extract)
 
